@@ -3,6 +3,16 @@ from typing import Tuple
 from . import xl, xlerrors, func_xltypes
 
 
+def _evaluated_items(logical):
+    """Evaluate one argument and return its items; an error among them is
+    the result of the whole function."""
+    items = xl.flatten([logical()])
+    for item in items:
+        if isinstance(item, xlerrors.ExcelError):
+            raise item
+    return items
+
+
 @xl.register()
 @xl.validate_args
 def AND(
@@ -18,8 +28,7 @@ def AND(
 
     # Use delayed evaluation to minimize th amount of values to evaluate.
     for logical in logicals:
-        val = logical()
-        for item in xl.flatten([val]):
+        for item in _evaluated_items(logical):
             if func_xltypes.Blank.is_blank(item):
                 continue
             if not bool(item):
@@ -54,8 +63,7 @@ def OR(
 
     # Use delayed evaluation to minimize th amount of valaues to evaluate.
     for logical in logicals:
-        val = logical()
-        for item in xl.flatten([val]):
+        for item in _evaluated_items(logical):
             if func_xltypes.Blank.is_blank(item):
                 continue
             if bool(item):
@@ -78,7 +86,10 @@ def IF(
     """
     # Use delayed evaluation to only evaluate the true or false value but not
     # both.
-    value = value_if_true if logical_test() else value_if_false
+    test = logical_test()
+    if isinstance(test, xlerrors.ExcelError):
+        return test
+    value = value_if_true if test else value_if_false
     # The defaults are plain values, not expressions.
     return value() if isinstance(value, func_xltypes.Expr) else value
 
@@ -91,7 +102,10 @@ def NOT(logical: func_xltypes.XlExpr) -> func_xltypes.XlBoolean:
     https://support.microsoft.com/en-us/office/
         not-function-9cfc6011-a054-40c7-a140-cd4ba2d87d77
     """
-    return not bool(logical())
+    value = logical()
+    if isinstance(value, xlerrors.ExcelError):
+        raise value
+    return not bool(value)
 
 
 @xl.register()
